@@ -389,16 +389,27 @@ static int processAndInsertNode(KSI_TreeBuilder *builder, KSI_TreeNode *node) {
 		if (tmp != NULL) {
 			res = KSI_TreeNode_join(builder->ctx, builder->hsr, tmp, localRoot == NULL ? node : localRoot, &localRoot);
 			if (res != KSI_OK) goto cleanup;
+
+			/* The new node belongs to the local root now. */
+			tmp = NULL;
 		}
 	}
 
 	res = insertNode(builder, localRoot == NULL ? node : localRoot, 0);
 	if (res != KSI_OK) goto cleanup;
 
-	tmp = NULL;
+	localRoot = NULL;
 
 cleanup:
 
+	if (localRoot != NULL) {
+		/* The input node stays with the caller - detach it before releasing the local tree. */
+		if (node->parent != NULL) {
+			node->parent->rightChild = NULL;
+			node->parent = NULL;
+		}
+		KSI_TreeNode_free(localRoot);
+	}
 	KSI_TreeNode_free(tmp);
 
 	return res;
